@@ -3,8 +3,9 @@ CONSTANTS Vocab <- VocabC
           MaxCrashes = 0
           AtomicSave = FALSE
           InitDisks <- InitDisksC
+          TempExclusive = FALSE
           AppendOnly = TRUE
 INIT DFInit
 NEXT DFNext
-INVARIANTS NeverLosesExceptKnown
+INVARIANTS NeverLosesExceptKnown EveryFinishedAddSticks
 CHECK_DEADLOCK FALSE
